@@ -35,7 +35,7 @@ def gen(rng, tier, dist):
     for c in range(n):
         static = c % 5 == 4
         opts = {"p_soft": 0.6 if rng.random() < 0.5 else 0.0, "p_sel": 0.8, "p_ptr": 0.7,
-                "p_rdep": 0.7, "p_nodef": 0.03, "p_inner": 0.0}
+                "p_rdep": 0.7, "p_nodef": 0.03, "p_inner": 0.5 if rng.random() < 0.3 else 0.0}
         app = sc.static_app() if static else sc.gen_app(rng, opts)
         ref = sc.Ref(app)
         if not ref.flat:
